@@ -1,14 +1,13 @@
 #!/bin/bash
-# tools/try_mutant.sh <patch.diff> <ID> [tier]  — apply a seeded change to /repo, run the check, undo it.
-patch="$1"; id="$2"; tier="${3:-quick}"
-cd /repo || exit 2
-if [ -n "$(git status --porcelain)" ]; then echo "/repo not clean"; exit 2; fi
-git apply "$patch" || { echo "patch does not apply"; exit 2; }
+# tools/try_mutant.sh <patch.diff> <ID> [tier] — run a check against a seeded change WITHOUT touching /repo:
+# the change is applied to a scratch copy of /repo's working tree and the check is pointed at it (VERIF_REPO);
+# evidence and replays of that run go to a scratch directory. (Equivalent to: git -C /repo apply; ./check; git -C /repo checkout -- .)
+patch="$(realpath "$1")"; id="$2"; tier="${3:-quick}"
+w=$(mktemp -d /tmp/mutrun.XXXXXX); trap 'rm -rf "$w"' EXIT
+rsync -a --exclude .git /repo/ "$w/repo/"
+(cd "$w/repo" && git apply "$patch") || { echo "patch does not apply"; exit 2; }
 cd /verif
-./check "$id" --tier "$tier" > /tmp/mutant_out.$$ 2>&1; rc=$?
-grep -E "VIOLATION|KNOWN-FINDING|HELD|VIOLATED|INCONCLUSIVE" /tmp/mutant_out.$$ | cut -c1-300 | head -8
-grep -E "^  why:" /tmp/mutant_out.$$ | cut -c1-400 | head -3
-rm -f /tmp/mutant_out.$$
-git -C /repo checkout -- . ; git -C /repo clean -fdq
-git -C /verif checkout -- evidence 2>/dev/null
+VERIF_REPO="$w/repo" VERIF_EVIDENCE_DIR="$w/evidence" VERIF_REPLAY_DIR="$w/replays" ./check "$id" --tier "$tier" > "$w/out" 2>&1; rc=$?
+grep -E "VIOLATION|KNOWN-FINDING|HELD|VIOLATED|INCONCLUSIVE" "$w/out" | cut -c1-300 | head -8
+grep -E "^  why:" "$w/out" | cut -c1-400 | head -3
 echo "rc=$rc"
